@@ -226,14 +226,15 @@ def noPruningPossible (poly : Array (V2 Rat)) : Bool :=
   poly.all (fun v => (v.x * 4).den == 1 && (v.y * 4).den == 1) && decide (sqDiam poly < 300)
 
 /-- common judgement of a list of convex pieces against the area `A` they must tile; `tol` = allowed area deficit -/
-def judgePieces (poly : Array (V2 Rat)) (A tol sl : Rat) (P : List (List (V2 Rat))) : String :=
+def judgePieces (poly : Array (V2 Rat)) (A : Rat) (tol : Unit → Rat) (sl : Rat) (P : List (List (V2 Rat))) : String :=
   if P.any (fun p => p.length < 3) then "fail piece-with-fewer-than-3-vertices" else
   if P.any (fun p => p.any fun v => !(isVertexOf poly v)) then "fail piece-vertex-not-an-input-vertex" else
   if !(P.all (isConvexCcw sl)) then "fail piece-not-convex-ccw" else
   if !(allDisjoint sl P) then "fail pieces-overlap" else
   let S := (P.map shoelace2).foldl (· + ·) 0
   if S > A + sl * P.length then "fail area-exceeds-input" else
-  if A - S > tol then s!"fail area-not-conserved deficit2={A - S}" else "pass"
+  if A - S ≤ 0 then "pass" else   -- (the allowance is only evaluated when there is a deficit)
+  if A - S > tol () then s!"fail area-not-conserved deficit2={A - S}" else "pass"
 
 def oracleHMPts (poly : Array (V2 Rat)) (tris : Array (Nat × Nat × Nat)) (out : List String) : String :=
   let n := poly.size
@@ -248,7 +249,7 @@ def oracleHMPts (poly : Array (V2 Rat)) (tris : Array (Nat × Nat × Nat)) (out 
   | _ =>
     match run (do let p ← plist ppts; pend; pure p) out with
     | none => "fail unparsable-output"
-    | some pieces => judgePieces poly A 0 (slackOf poly) (pieces.map fun p => p.map q2)
+    | some pieces => judgePieces poly A (fun _ => 0) (slackOf poly) (pieces.map fun p => p.map q2)
 
 /-- unit outward normals of a counter-clockwise polygon shape (the normal of a kept vertex is the one of its *original*
 outgoing edge, which pruning leaves within `2e-4` rad of the kept edge) -/
@@ -317,7 +318,7 @@ def oracleDecompose (poly : Array (V2 Rat)) (A : Rat) (out : List String) : Stri
     | some shapes =>
       let P := shapes.map fun s => s.1.map q2
       if !(shapes.all fun s => s.2.isEmpty || normalsOk (s.1.map q2) (s.2.map q2)) then "fail bad-normals" else
-      match judgePieces poly A (pruneAllowance poly P) (slackOf poly) P with
+      match judgePieces poly A (fun _ => pruneAllowance poly P) (slackOf poly) P with
       | "pass" =>
         if A ≠ shoelace2 poly.toList then "pass" else
         (match uncoveredVertex poly P with
